@@ -18,7 +18,7 @@ MANIFEST = dict(
          "monitor recomputes the in-flight values from the accepted commitment contents.  C06_balance_rule_is_source: the "
          "model's balance rule IS the source's - Gen/PaymentsGen.v is regenerated on every run from "
          "SimpleValidator::validate_payment_balance by tools/gen_rustfn.py and proved equal to balance_ok (default filter, "
-         "both build profiles, amounts that fit u64).  Props/Joint.v restates C06 (and "
+         "both build profiles, amounts that fit u64).  C06_payment_check_is_source / C06_payment_check_is_validate_payments: the payment check IS the source's - NodeState::validate_payments (whole body) with RoutedPayment::updated_incoming_outgoing and the other methods it uses, validate_payment_cltv and enforce_balance is translated statement by statement on every run (Gen/NodePaymentsGen.v; maps and sets as association lists, the hash set visited in an arbitrary order) and proved to accept exactly when every hash passes the model's hash_ok, for every well-formed source-level state and every order of visiting (assumed: the CLTV-delta rule of the source, which the model does not have, passes; enforce_balance off; the three tags not downgraded; no u64 overflow).  C06_payment_booking_is_source: RoutedPayment::apply is the ledger update of apply_one (NodeState::apply_payments around it is not translated).  Props/Joint.v restates C06 (and "
          "C01-C03) over joint histories of Model/Joint.v, where the enforcement state machines of all channels and the "
          "ledger run together and the payment verdict of every update is computed instead of supplied; the same histories are "
          "compared with that model too (reply, ledger, and every channel's enforcement state in memory and in the store).",
@@ -38,16 +38,32 @@ def run(res):
 
     def regen():
         report.update(gen_rustfn.generate_payments(lib.REPO))
+        stage["at"] = "node"
+        # Gen/NodePaymentsGen.v (NodeState::validate_payments, the RoutedPayment methods, validate_payment_cltv) over the
+        # policy record of Gen/CommitmentPolicyGen.v and the balance rule of Gen/PaymentsGen.v
+        report["commitment_policy"] = gen_rustfn.generate_commitment_policy(lib.REPO)["translated"]
+        report["node_payments"] = gen_rustfn.generate_node_payments(lib.REPO)
+    stage = {"at": "balance"}
     try:
         lib.proof_stage(res, "C06.v", "Props.C06",
                         ["C06_no_overpay", "C06_ledger_is_in_flight_value", "C06_unbacked_refused",
                          "C06_balance_rule_is_source", "C06_preimage_records_survive_restart",
-                         "C06_fulfil_records_preimage", "C06_nonvacuous"], pre=regen)
+                         "C06_fulfil_records_preimage", "C06_nonvacuous",
+                         "C06_payment_check_is_source", "C06_payment_check_is_validate_payments",
+                         "C06_payment_booking_is_source", "C06_value_sums_do_not_depend_on_order"], pre=regen)
     except gen_rustfn.GenError as e:
-        res.violation("the translator cannot read SimpleValidator::validate_payment_balance (a construct outside its "
-                      "fragment): %s" % e,
-                      {"translator": "tools/gen_rustfn.py", "source": "vls-core/src/policy/simple_validator.rs",
-                       "error": str(e), "theorem": "C06_balance_rule_is_source"}, has_input=False)
+        if stage["at"] == "balance":
+            res.violation("the translator cannot read SimpleValidator::validate_payment_balance (a construct outside its "
+                          "fragment): %s" % e,
+                          {"translator": "tools/gen_rustfn.py", "source": "vls-core/src/policy/simple_validator.rs",
+                           "error": str(e), "theorem": "C06_balance_rule_is_source"}, has_input=False)
+        else:
+            res.violation("the translator cannot read NodeState::validate_payments, a RoutedPayment method, "
+                          "validate_payment_cltv / enforce_balance or a declaration they use (a construct outside its "
+                          "fragment): %s" % e,
+                          {"translator": "tools/gen_rustfn.py",
+                           "source": "vls-core/src/node.rs (+ policy/simple_validator.rs, policy/validator.rs, lib.rs, policy/error.rs)",
+                           "error": str(e), "theorem": "C06_payment_check_is_source"}, has_input=False)
     res.coverage["translated_from_source"] = report
     # the same theorems (and C01-C03) over joint histories of the whole node, where the payment verdict of a
     # commitment update is computed from the ledger and the enforcement verdict from the counters
